@@ -402,7 +402,56 @@ def run(ctx):
     rules.append(r6)
     rules.append(tree_agreement_rule(ctx, "C02", "C02.R7"))
     rules.append(_fresh_elements_rule(ctx))
+    rules.append(_name_map_rule(ctx, reach))
+    # the entity declaration's binds name attributes of meta/entity: those attributes exist on the node the section
+    # builders get from it (shared with C19.R1, which evaluates node and binds for every accepted declaration)
+    from . import c19
+    from .c08 import _take
+    r10 = Rule("C02", "C02.R10", "entity binds name attributes the entity node has", floor=20,
+               necessary="a bind on /meta/entity/@x where the node has no attribute x is a dangling bind")
+    _take(r10, c19.run(ctx), "C19.R1", lambda c: c.startswith("bind-target") or "survey.entity_features=" in c)
+    rules.append(r10)
     return rules
+
+
+def _name_map_rule(ctx, reach):
+    """Survey._xpath maps a NAME to the one element of that name (None when several share it) and is built once per
+    survey object: it answers ${name} lookups, it is not a list of the form's elements.  Generation code that iterates
+    it skips every element whose name repeats (and, after an edit, sees the tree as it was): only lookups are allowed."""
+    r = Rule("C02", "C02.R9", "generation walks the tree; the name map is only looked up", floor=1,
+             necessary="an element missing from the name map (a repeated name, an element added later) is skipped by a traversal of the map while its instance node is still built from the tree")
+    n_lookup = n_iter_outside = 0
+    for fi in ctx.repo.all_functions():
+        for x in walk_own(fi.node):
+            if not (isinstance(x, ast.Attribute) and x.attr == "_xpath" and isinstance(x.ctx, ast.Load)):
+                continue
+            p = parent(x)
+            iterated = False
+            if isinstance(p, ast.Attribute) and p.attr in ("values", "items", "keys") and isinstance(parent(p), ast.Call):
+                call = parent(p)
+                pp = parent(call)
+                # .keys() inside a membership test is a lookup
+                if isinstance(pp, ast.Compare) and any(isinstance(o, ast.In | ast.NotIn) for o in pp.ops) and call in pp.comparators:
+                    iterated = False
+                else:
+                    iterated = True
+            elif isinstance(p, ast.For | ast.comprehension) and getattr(p, "iter", None) is x:
+                iterated = True
+            elif isinstance(p, ast.Call) and call_name(p) in ("list", "tuple", "sorted", "set", "iter", "len", "enumerate", "chain") and x in p.args:
+                iterated = call_name(p) != "len"
+            if not iterated:
+                n_lookup += 1
+                continue
+            owner = fi
+            while owner.parent is not None:
+                owner = owner.parent
+            if fi.fq in reach or owner.fq in reach:
+                r.fail(f"{fi.fq}:{norm(p)[:50]}", "the name map is looked up by name, never traversed, on the conversion path", fi.loc(x),
+                       why_fail="elements whose name repeats are stored as None and elements added after the first render are absent: a traversal of the map is not a traversal of the form")
+            else:
+                n_iter_outside += 1
+    r.check(n_lookup >= 3, "name map:lookups", f"{n_lookup} lookup uses recognised on the conversion path and elsewhere; {n_iter_outside} traversal(s) outside the conversion path (legacy SurveyInstance)", "pyxform/survey.py")
+    return r
 
 
 VALIDATION_TREES = [
@@ -555,13 +604,21 @@ def tree_agreement_rule(ctx, prop, rid, want_body=True):
     hooks = {"fnname:node": node_hook,
              "fnname:insert_xpaths": lambda i, a, k, n: next((x for x in a if isinstance(x, str)), k.get("text")),
              "fnname:insert_output_values": lambda i, a, k, n: (next((x for x in a if isinstance(x, str)), k.get("text")), False)}
+    # the flat flag is the settings option (the bool True) or a cell of a `flat` column (any truthy text): the instance
+    # builders and the path function must read it the same way
+    variants = []
     for tname, spec in AGREEMENT_TREES.items():
-        flat = tname.startswith("flat")
+        if tname.startswith("flat"):
+            variants += [(tname, spec, True), (f"{tname}, flag written as a cell ('yes')", spec, "yes")]
+        else:
+            variants.append((tname, spec, None))
+    for tname, spec, flat_value in variants:
+        flat = flat_value is not None
         survey, by_name, everything = trees.build(ctx, spec)
         if flat:
             for e in everything:
                 if e.attrs.get("children") is not None:
-                    e.attrs["flat"] = True
+                    e.attrs["flat"] = flat_value
         it = ctx.interp(rid, hooks=hooks)
         it.reset([])
         try:
